@@ -144,8 +144,98 @@ impl Val for Tri {
     }
 }
 
+/// A user-defined 4-byte big-endian value: as wide as its in-memory form, but not its image.
+#[derive(Clone, Copy, Debug, PartialEq, Eq, Hash)]
+pub struct Be32(pub u32);
+impl Serializable for Be32 {
+    fn serialize_to_vec(&self, dst: &mut Vec<u8>) {
+        dst.extend_from_slice(&self.0.to_be_bytes());
+    }
+    fn deserialize_from_slice(src: &[u8]) -> (Self, &[u8]) {
+        (Be32(u32::from_be_bytes(src[..4].try_into().unwrap())), &src[4..])
+    }
+    fn serialized_bytes() -> usize {
+        4
+    }
+}
+impl TryFrom<usize> for Be32 {
+    type Error = ();
+    fn try_from(x: usize) -> Result<Self, ()> {
+        u32::try_from(x).map(Be32).map_err(|_| ())
+    }
+}
+impl Val for Be32 {
+    const NAME: &'static str = "Be32";
+    fn show(&self) -> String {
+        self.0.to_string()
+    }
+    fn max_index() -> u64 {
+        i32::MAX as u64
+    }
+    fn special(k: u64) -> Self {
+        Be32(<u32 as Val>::special(k))
+    }
+    fn eq_b(a: &DoubleArrayAhoCorasick<Self>, b: &DoubleArrayAhoCorasick<Self>) -> bool {
+        a == b
+    }
+    fn eq_c(a: &CharwiseDoubleArrayAhoCorasick<Self>, b: &CharwiseDoubleArrayAhoCorasick<Self>) -> bool {
+        a == b
+    }
+}
+
+/// A user-defined two-field value written in the opposite field order (8 bytes, no padding).
+#[derive(Clone, Copy, Debug, PartialEq, Eq, Hash)]
+pub struct Pair32 {
+    pub a: u32,
+    pub b: u32,
+}
+impl Serializable for Pair32 {
+    fn serialize_to_vec(&self, dst: &mut Vec<u8>) {
+        dst.extend_from_slice(&self.b.to_le_bytes());
+        dst.extend_from_slice(&self.a.to_le_bytes());
+    }
+    fn deserialize_from_slice(src: &[u8]) -> (Self, &[u8]) {
+        let b = u32::from_le_bytes(src[..4].try_into().unwrap());
+        let a = u32::from_le_bytes(src[4..8].try_into().unwrap());
+        (Pair32 { a, b }, &src[8..])
+    }
+    fn serialized_bytes() -> usize {
+        8
+    }
+}
+impl TryFrom<usize> for Pair32 {
+    type Error = ();
+    fn try_from(x: usize) -> Result<Self, ()> {
+        u32::try_from(x).map(|a| Pair32 { a, b: !a }).map_err(|_| ())
+    }
+}
+impl Val for Pair32 {
+    const NAME: &'static str = "Pair32";
+    fn show(&self) -> String {
+        // the input position is field a (b is its complement for bare patterns)
+        if self.b == !self.a {
+            self.a.to_string()
+        } else {
+            format!("{}:{}", self.a, self.b)
+        }
+    }
+    fn max_index() -> u64 {
+        i32::MAX as u64
+    }
+    fn special(k: u64) -> Self {
+        Pair32 { a: <u32 as Val>::special(k), b: <u32 as Val>::special(k / 3 + 1) }
+    }
+    fn eq_b(a: &DoubleArrayAhoCorasick<Self>, b: &DoubleArrayAhoCorasick<Self>) -> bool {
+        a == b
+    }
+    fn eq_c(a: &CharwiseDoubleArrayAhoCorasick<Self>, b: &CharwiseDoubleArrayAhoCorasick<Self>) -> bool {
+        a == b
+    }
+}
+
 pub const ALL_TYPES: &[&str] = &[
     "u8", "u16", "u32", "u64", "u128", "usize", "i8", "i16", "i32", "i64", "i128", "isize", "Empty", "Tri",
+    "Be32", "Pair32",
 ];
 
 /// Calls `$f::<T>($($a),*)` for the value type named `$name`.
@@ -167,6 +257,8 @@ macro_rules! with_val {
             "isize" => $f::<isize>($($a),*),
             "Empty" => $f::<daachorse::Empty>($($a),*),
             "Tri" => $f::<$crate::val::Tri>($($a),*),
+            "Be32" => $f::<$crate::val::Be32>($($a),*),
+            "Pair32" => $f::<$crate::val::Pair32>($($a),*),
             other => panic!("unknown value type {other}"),
         }
     };
